@@ -334,7 +334,7 @@ class Type2Tag(Tag):
             if same_data > 0:
                 lines.append(pagedump(page, this_data))
 
-        for i in range(4, stop if stop is not None else 0x40000):
+        for i in range(4, stop if stop is not None else 0x10000):
             try:
                 self.sector_select(i >> 8)
                 this_data = self.read(i)[0:4]
